@@ -1059,7 +1059,7 @@ def probes(ctx, cases_in):
 
 
 # ---------------------------------------------------------------------------- inputs of every Signal kind
-INPUT_KINDS = ["signal", "function:gauss", "function:triangle", "function:buffered", "function:sum", "function:scaled",
+INPUT_KINDS = ["signal", "empty", "signal:int-values", "function:gauss", "function:triangle", "function:buffered", "function:sum", "function:scaled",
                "askaryan", "noise"]
 
 
@@ -1091,6 +1091,15 @@ def make_input(kind, rng):
     if kind == "signal":
         x = np.array([rng.gauss(0, 1) for _ in range(n)]) * amp
         return pyrex.Signal(times, x, value_type=field), [(times, lambda t, x=x: x, 0)], times
+    if kind == "empty":
+        ty = rng.choice([field, None, pyrex.Signal.Type.voltage])
+        return pyrex.EmptySignal(times, value_type=ty), [(times, lambda t: np.zeros(len(t)), 0)], times
+    if kind == "signal:int-values":
+        # integer-typed values given as a Python list (the time grid stays float: Signal.shift adds the delay in place,
+        # which NumPy refuses for an integer array -- a limitation of Signal.shift itself, outside this property)
+        xi = [int(rng.randrange(-5, 6)) for _ in range(n)]
+        xf = np.array(xi, float)
+        return pyrex.Signal(list(times), xi, value_type=field), [(times, lambda t, xf=xf: xf, 0)], times
     if kind in ("function:gauss", "function:triangle"):
         g = gauss if kind.endswith("gauss") else triangle
         return pyrex.FunctionSignal(times, g, value_type=field), [(times, g, 0)], times
@@ -1252,6 +1261,18 @@ def probe_inputs(ctx, cases_in):
                              "%s.propagate(%s input) without polarization is not the input x attenuation(|f|) per frequency (max error %.3g > %.3g)" % (kname, kind, err, tol), rep)
                 if not (np.array_equal(t_s1, times + tof) and np.array_equal(t_p1, times + tof) and np.array_equal(t_o1, times + tof)):
                     ctx.fail("inputs-grid:%s:%s" % (kname, kind), "%s.propagate(%s input): output times are not input times + tof" % (kname, kind), rep)
+                # the outputs and the caller's signal are separate objects that share no array
+                arrs = {"input.times": np.asarray(sig.times), "s.times": np.asarray(s1.times), "p.times": np.asarray(p1.times),
+                        "unpolarized.times": np.asarray(o1.times), "second s.times": np.asarray(s2.times)}
+                names = list(arrs)
+                shared = [(a_, b_) for i_, a_ in enumerate(names) for b_ in names[i_ + 1:] if np.shares_memory(arrs[a_], arrs[b_])]
+                vals_ = {"input.values": getattr(sig, "_values", None) if not hasattr(sig, "_functions") else None,
+                         "s.values": s1.__dict__.get("values"), "p.values": p1.__dict__.get("values")}
+                vn = [k_ for k_, v_ in vals_.items() if isinstance(v_, np.ndarray)]
+                shared += [(a_, b_) for i_, a_ in enumerate(vn) for b_ in vn[i_ + 1:] if np.shares_memory(vals_[a_], vals_[b_])]
+                if shared or s1 is sig or p1 is sig or s1 is p1 or o1 is sig:
+                    ctx.fail("inputs-shared-arrays:%s:%s" % (kname, kind),
+                             "%s.propagate(%s input): outputs / input are not independent objects (shared arrays: %s)" % (kname, kind, shared), rep)
                 stats["repeat"] += 1
                 if not (np.array_equal(v_s1, v_s2) and np.array_equal(v_p1, v_p2)):
                     ctx.fail("inputs-repeat:%s:%s" % (kname, kind),
